@@ -86,6 +86,15 @@ func checkDescParse(c *mon.Ctx, stage string, idx int64, r *rand.Rand, ds []*ast
 	default:
 		if d := mon.Diff(got, want, nil); d != "" {
 			c.Violate("C14/parse/field-differs:"+cls+":"+fieldOf(d), stage, idx, "library vs reference: "+d, data)
+			return
+		}
+		// the parsed value must be a value of its own: overwriting the buffer it was parsed from (the demuxer parses from a pooled,
+		// reused buffer) must not change it
+		for k := range in {
+			in[k] ^= 0xA5
+		}
+		if d := mon.Diff(got, want, nil); d != "" {
+			c.Violate("C14/parse/value-aliases-parse-buffer:"+cls+":"+fieldOf(d), stage, idx, "after the parse buffer was overwritten: "+d, data)
 		}
 	}
 }
